@@ -11,7 +11,7 @@ import z3
 
 import e2
 import miniregex
-from mir_exec import (Agg, MapBuf, Opaque, SBool, SInt, Slice, Str, StringBuf, Unsupported, VecBuf, field_of, find_method,
+from mir_exec import (STRUCTS, Agg, MapBuf, Opaque, SBool, SInt, Slice, Str, StringBuf, Unsupported, VecBuf, field_of, find_method,
                       load_program, mk_int, mk_struct, new_ref, UNIT)
 from mir_models import (Models, SeqIt, as_items, as_str, char_eq, deref, err, none, ok, sbool, some, z_and, z_not, z_or)
 from props.c08 import GrammarModels
@@ -39,6 +39,17 @@ class DocModels(GenModels):
             if key not in memo:
                 memo[key] = c.decide(c.sym_bool(c.fresh_name("yaml_ok")).v)
             if memo[key]:
+                # what the texts of the templates say: the inline configuration sets keep_crlf, the front-matter sets two defaults
+                if ty == "TestCaseConfig":
+                    cfg = c.call(c.program.resolve_call("TestCaseConfig::empty"), [])
+                    cfg.fields[STRUCTS["TestCaseConfig"].index("keep_crlf")] = some(SBool(True))
+                    return ok(cfg)
+                if ty == "DocumentConfig":
+                    doc = c.call(c.program.resolve_call("DocumentConfig::empty"), [])
+                    dfl = field_of(doc, "defaults")
+                    dfl.fields[STRUCTS["TestCaseConfig"].index("keep_crlf")] = some(SBool(False))
+                    dfl.fields[STRUCTS["TestCaseConfig"].index("skip_document_code")] = some(mk_int(7, "i32"))
+                    return ok(doc)
                 impl = c.program.resolve_call("<%s as Default>::default" % ty)
                 return ok(c.call(impl, []))
             return err(Opaque("serde_yaml::Error"))
@@ -282,6 +293,18 @@ def md_post(ctx, args, kind, value):
         for e, idx in zip(exps, w["exps"]):
             orig = list(as_str(e.fields[3]).chars)      # the line as written
             conds.append(same(orig, ctx.notes["lines"][idx]))
+        # configuration layers at parse time: inline over the document's defaults over the format's
+        opener = max(i for i in range(w["cmd"][0]) if seq[i] in FENCES)
+        has_fm = front_matter_len(seq) > 0
+        tcfg = field_of(got, "config")
+        crlf, skip, stream = field_of(tcfg, "keep_crlf"), field_of(tcfg, "skip_document_code"), field_of(tcfg, "output_stream")
+        want_crlf = True if seq[opener] in ("J", "Q") else (False if has_fm else None)
+        if want_crlf is None:
+            conds.append(crlf.variant == "None")
+        else:
+            conds.append(crlf.variant == "Some" and crlf.fields[0].concrete and bool(crlf.fields[0].v) == want_crlf)
+        conds.append(skip.variant == "Some" and skip.fields[0].concrete and skip.fields[0].v == (7 if has_fm else 80))
+        conds.append(stream.variant == "Some" and deref(stream.fields[0]).variant == "Stdout")
         if w["title"] != "skip":
             t = list(as_str(field_of(got, "title")).chars)
             conds.append(same(t, title_text(ctx, w["title"])) if w["title"] is not None else len(t) == 0)
@@ -361,7 +384,7 @@ def h_md_parse(max_len):
             seqs.append(s_)
             seen.add(s_)
     # nested fences: a four-backtick scrut block with three-backtick / indented backtick lines as content
-    for s_ in md_sequences(max_len, "LKIECX", need="L"):
+    for s_ in md_sequences(max_len, "LKIEVCX", need="L"):
         if s_ not in seen:
             seqs.append(s_)
             seen.add(s_)
@@ -422,7 +445,13 @@ CRAM_TEMPLATES = {
     "S": ("   ", 1),      # expectation with a leading blank (three spaces + letter)
     "W": ("  ", 1, " "),  # expectation with trailing blank
     "R": ("  [7]", 0),    # exit code
+    # lines whose leading whitespace is not the two-space indentation: unindented text, never body (and never a crash)
+    "A": ("\t\t$ ", 1),   # two tabs, then what looks like a command
+    "Z": (" \t", 1),      # a blank and a tab
+    "O": ("\u3000", 1),   # a wide (three-byte) space
+    "N": (" \u00a0", 1),  # a blank and a two-byte no-break space
 }
+ODD_TITLES = "AZON"
 
 
 def cram_line(ctx, t, i):
@@ -457,13 +486,13 @@ def cram_reference(seq):
                 return "error"
             in_command = False
             continue
-        if t == "T":
+        if t == "T" or t in ODD_TITLES:
             if cur is not None:
                 tests.append(cur)
                 cur = None
             elif orphan:
                 return "error"
-            title, title_fresh = i, True
+            title, title_fresh = (i, True) if t == "T" else ("odd", True)     # how an oddly indented line reads as a title is left open
             in_command = False
             continue
         if t == "C":
@@ -471,7 +500,8 @@ def cram_reference(seq):
                 tests.append(cur)
             elif orphan:
                 return "error"
-            cur = {"cmd": [i], "exps": [], "exit": None, "line": i + 1, "title": title if title_fresh else ("skip" if title is not None else None)}
+            cur = {"cmd": [i], "exps": [], "exit": None, "line": i + 1,
+                   "title": ("skip" if title == "odd" else title) if title_fresh else ("skip" if title is not None else None)}
             title_fresh = False
             in_command = True
             continue
@@ -601,6 +631,12 @@ def cram_judge_native(seq, lines, nv):
 def h_cram_parse(max_len, orphan=False):
     """orphan=False: documents in which every body line follows a command; orphan=True: the others (output before any command)"""
     seqs = [s for s in cram_sequences(max_len) if (cram_reference(s) == "error") == orphan]
+    if not orphan:
+        seen = set(seqs)
+        for s_ in cram_sequences(min(max_len, 4), "TCX" + ODD_TITLES):
+            if s_ not in seen and any(c in s_ for c in ODD_TITLES) and cram_reference(s_) != "error":
+                seqs.append(s_)
+                seen.add(s_)
     inputs = [("doc=%s" % (s or "(empty)"), mk_cram_setup(s)) for s in seqs]
     if orphan:
         h = e2.Harness("cram_output_before_command", cram_parse_driver, inputs, cram_post, native="cram_parse", judge=None,
@@ -867,7 +903,7 @@ def h_md_update(max_len):
             seqs.append(s_)
             seen.add(s_)
     # longer fences with backtick runs as content: L····, K, I, and three-backtick lines inside
-    for s_ in md_sequences(max_len, "LKIECX", need="L"):
+    for s_ in md_sequences(max_len, "LKIEVCX", need="L"):
         if s_ not in seen:
             seqs.append(s_)
             seen.add(s_)
